@@ -205,7 +205,7 @@ def run(chk, facts, tier):
         "operands in declaration order and method style; (OPERATOR) `<`/`<=` in binary_relation select closures applying exactly lt/le, and operator overloading is on exactly "
         "for datetime and duration; (REJECT / FORMS / LIMITS) every place where a constructor rejects its input (error built, with the conditional guards and constants that dominate it), "
         "every regular expression the constructors compile and every named numeric limit they use equals the reviewed inventory tables/c07_rejections.json in both directions - a vanished, "
-        "weakened or added check, a changed pattern or limit is reported; (RANGE) interval abstract interpretation of DateTime::to_time: over every path, negative epochs included, the returned time of day lies in [0, one day) and its raw arithmetic cannot overflow. Declines netmask and calendar arithmetic and that the reviewed forms are the documented ones beyond the recorded reasons (value-level).")
+        "weakened or added check, a changed pattern or limit is reported; (RANGE) interval abstract interpretation of DateTime::to_time: over every path, negative epochs included, the returned time of day lies in [0, one day) and its raw arithmetic cannot overflow; (EXACT) the relational part of the same engine (exact affine forms over the inputs, congruences of remainders, checked_* results followed through `?` / `map`) decides for every input that toTime() is the epoch's non-negative remainder modulo one day, toDate() the start of the epoch's day (None only on overflow), offset() exactly epoch + ms and durationSince() exactly the difference of the epochs. Declines netmask arithmetic, the parsing of datetime / duration / decimal strings into their numeric value and that the reviewed forms are the documented ones beyond the recorded reasons (value-level).")
     chk.assumptions = ["the reviewed reasons in tables/arith.json and tables/c07_rejections.json", "PartialOrd on the payload types is the mathematical order of the represented value",
                        "MIR at mir-opt-level=0 reflects source control flow"]
     arith.check(chk, facts, "C07.ARITH", ["src/extensions/decimal.rs", "src/extensions/datetime.rs", "src/extensions/ipaddr.rs", "src/extensions.rs",
@@ -216,3 +216,5 @@ def run(chk, facts, tier):
     c07_reject.check(chk, facts)
     from rules import c07_range
     c07_range.check(chk, facts)
+    from rules import c07_exact
+    c07_exact.check(chk, facts)
